@@ -2,6 +2,9 @@
 #include <time.h>
 
 struct vp_state vp;
+/* protocol stream; harnesses that must capture the library's own stdout point it at a dup of fd 1 */
+FILE *vp_out;
+#define OUT (vp_out ? vp_out : stdout)
 static int g_argc; static char **g_argv;
 
 const char *vp_arg(const char *name, const char *dflt)
@@ -26,13 +29,13 @@ static void emit_case_marker(const char *why)
 /* called by the ASan runtime when it starts to report an error */
 static int finished;
 /* a dying process still reports what its monitors saw up to now */
-void __asan_on_error(void) { emit_case_marker("asan"); if (!finished) vp_finish(); fflush(stdout); }
+void __asan_on_error(void) { emit_case_marker("asan"); if (!finished) vp_finish(); fflush(OUT); }
 
 static void on_fatal(int sig)
 {
 	emit_case_marker(sig == SIGABRT ? "abort" : sig == SIGSEGV ? "segv" : sig == SIGBUS ? "bus" : "signal");
 	if (!finished) vp_finish();
-	fflush(stdout);
+	fflush(OUT);
 	signal(sig, SIG_DFL);
 	raise(sig);
 }
@@ -84,14 +87,14 @@ static void emit(char tag, const char *key, const char *fmt, va_list ap)
 {
 	char buf[2048];
 	vsnprintf(buf, sizeof buf, fmt, ap);
-	fprintf(stdout, "%c {\"key\":", tag);
-	vp_json_str(stdout, key);
-	fprintf(stdout, ",\"case\":%ld,\"seed\":%llu,\"detail\":", vp.cur_case, (unsigned long long)vp.seed);
-	vp_json_str(stdout, buf);
-	fprintf(stdout, ",\"desc\":");
-	vp_json_str(stdout, vp.cur_desc);
-	fprintf(stdout, "}\n");
-	fflush(stdout);
+	fprintf(OUT, "%c {\"key\":", tag);
+	vp_json_str(OUT, key);
+	fprintf(OUT, ",\"case\":%ld,\"seed\":%llu,\"detail\":", vp.cur_case, (unsigned long long)vp.seed);
+	vp_json_str(OUT, buf);
+	fprintf(OUT, ",\"desc\":");
+	vp_json_str(OUT, vp.cur_desc);
+	fprintf(OUT, "}\n");
+	fflush(OUT);
 }
 
 void vp_violation(const char *key, const char *fmt, ...)
@@ -141,7 +144,7 @@ void vp_sample(const char *fmt, ...)
 
 void vp_finish(void)
 {
-	FILE *f = stdout;
+	FILE *f = OUT;
 	finished = 1;
 	fprintf(f, "S {\"from\":%ld,\"to\":%ld,\"nviol\":%d,\"counters\":{", vp.case_from, vp.case_to, vp.nviol);
 	for (int i = 0; i < vp.ncnt; i++) {
